@@ -425,6 +425,41 @@ func checkRoundTrip(tb ev.TB, a *refcodec.API, ver int16, body map[string]any, r
 	}
 	if d := refcodec.Diff(fs, ver, body, got, true); d != "" {
 		ev.Fail(tb, "frame", sig("value"), mk(), "%s v%d %s: decode(encode(v)) != v: %s", a.Name, ver, dir, d)
+		return
+	}
+	if a.Key == 0 || a.Key == 1 {
+		return
+	}
+	// the same value through protocol.Marshal / protocol.Unmarshal (the entry points that the group protocol's metadata goes
+	// through), with decodes of cut-off prefixes in between: a decode that fails leaves nothing behind for the next one
+	b, err := protocol.Marshal(ver, reflect.ValueOf(msg).Elem().Interface())
+	if err != nil {
+		ev.Fail(tb, "frame", sig("marshal-error"), mk(), "%s v%d %s: Marshal: %v", a.Name, ver, dir, err)
+		return
+	}
+	fresh := func() protocol.Message {
+		if request {
+			return libtypes.NewRequest(a.Key)
+		}
+		return libtypes.NewResponse(a.Key)
+	}
+	for _, cut := range []int{len(b) / 2, len(b) - 1} {
+		if cut >= 0 && cut < len(b) {
+			_ = protocol.Unmarshal(b[:cut], ver, fresh())
+		}
+	}
+	back2 := fresh()
+	if err := protocol.Unmarshal(b, ver, back2); err != nil {
+		ev.Fail(tb, "frame", sig("unmarshal-error"), mk(), "%s v%d %s: Unmarshal(Marshal(v)) after Unmarshal calls on cut-off prefixes of the same bytes: %v", a.Name, ver, dir, err)
+		return
+	}
+	got2, err := refcodec.FromStruct(fs, ver, reflect.ValueOf(back2), libtypes.RecordsHook())
+	if err != nil {
+		ev.Fail(tb, "frame", sig("records"), mk(), "%s v%d %s: %v", a.Name, ver, dir, err)
+		return
+	}
+	if d := refcodec.Diff(fs, ver, body, got2, true); d != "" {
+		ev.Fail(tb, "frame", sig("unmarshal-value"), mk(), "%s v%d %s: Unmarshal(Marshal(v)) != v: %s", a.Name, ver, dir, d)
 	}
 }
 
